@@ -143,3 +143,48 @@ pub fn c11_native_selection_operators() {
     }
     println!("c11_native_selection_operators: {} (population, count, seed) cases checked", cases);
 }
+
+// BOUNDED STAND-IN (not a proof) for the rank / weight kernels at sizes CBMC does not finish (reverse_rank: sort + group_by over
+// symbolic floats, 50 min time-out at size 2 under load; proportional_weights at size 3): exhaustive native enumeration over a
+// value grid.  reverse_rank: rank 1 = lowest objective, ties equal, ranks dense; a better objective <=> a smaller rank.
+// proportional_weights: refused iff empty or infinite; else non-negative, at least the offset, and a better objective never gets
+// a smaller weight.  (Size 2 of proportional_weights stays a Kani harness over all values.)
+// @native-harness
+pub fn c11_native_rank_and_weights() {
+    use crate::components::selection::functional::{proportional_weights, reverse_rank};
+    let grid = [-3.0, -1.0, 0.0, 0.5, 0.5000000000000001, 2.0, 1.0e6, f64::INFINITY];
+    let mut cases = 0u64;
+    for n in 0..=4usize {
+        let total = grid.len().pow(n as u32);
+        for c in 0..total {
+            let mut k = c;
+            let objs: Vec<f64> = (0..n).map(|_| { let v = grid[k % grid.len()]; k /= grid.len(); v }).collect();
+            let pop: Vec<Individual<P>> = objs.iter().enumerate().map(|(t, f)| ind(t as u8, *f)).collect();
+            let fail = |why: String| -> ! { eprintln!("COUNTEREXAMPLE objectives={objs:?}: {why}"); panic!("rank / weight kernel violates C11") };
+            let r = reverse_rank(&pop);
+            if r.len() != n { fail(format!("{} ranks for {n} individuals", r.len())) }
+            let distinct = { let mut d = objs.clone(); d.sort_by(|a, b| a.total_cmp(b)); d.dedup(); d };
+            for i in 0..n {
+                let want = 1 + distinct.iter().position(|v| *v == objs[i]).unwrap();
+                if r[i] != want { fail(format!("individual {i} has rank {}, expected {want} (rank 1 = lowest objective, ties equal, dense)", r[i])) }
+            }
+            let any_inf = objs.iter().any(|v| !v.is_finite());
+            for (offset, normalize) in [(0.0, false), (0.5, false), (0.0, true)] {
+                match proportional_weights(&pop, offset, normalize) {
+                    None => if n > 0 && !any_inf { fail(format!("weights refused (offset {offset}, normalize {normalize}) although the population is non-empty and finite")) },
+                    Some(w) => {
+                        if n == 0 || any_inf { fail("weights must be refused for an empty population or infinite objective values".into()) }
+                        if w.len() != n { fail("one weight per individual".into()) }
+                        for i in 0..n {
+                            if !(w[i] >= 0.0) { fail(format!("weight {} of individual {i} is negative or NaN (offset {offset}, normalize {normalize})", w[i])) }
+                            if !normalize && !(w[i] >= offset || w[i] == 1.0) { fail(format!("weight {} of individual {i} is below the offset {offset}", w[i])) }
+                            for j in 0..n { if objs[i] <= objs[j] && w[i] < w[j] { fail(format!("objective {} gets weight {} but the worse objective {} gets {} (offset {offset}, normalize {normalize})", objs[i], w[i], objs[j], w[j])) } }
+                        }
+                    }
+                }
+            }
+            cases += 1;
+        }
+    }
+    println!("c11_native_rank_and_weights: {} populations checked", cases);
+}
